@@ -2,7 +2,11 @@
 Line-protocol driver for the router block model (C15 correspondence).
 
   explore <op> <op> / <op> … / …      threads separated by `/`; ops:
-      sn:o shb:o gbc:o ego:v cbfA:o:k gbcRx:o:k cbfF:o:k:src guc:o:r:d lsR:o:d:n lsF:o:d:src:mr purge:d
+      sn:o shb:o gbc:o ego:v cbfA:o:k cbfF:o:k:src guc:o:r:d lsR:o:d:n lsF:o:d:src:mr purge:d refresh
+      gbcRx:o:a:k (GBC of source a, SN k; suffix U = LocTE update outside loc_t_lock, D = duplicates discard) shbRx:o:a shbRxU:o:a
+      a first segment starting with the token `init` is not a thread; it builds the initial state: `warm:a:k` (a GBC of
+      source a with SN k was received before the run), `sn0:v` (the sequence counter starts at v), any other op (executed
+      sequentially, to completion, before the threads start)
   → all outcomes reachable under SOME schedule of the blocks, `|`-separated (sorted, de-duplicated), or `bad-op`.
 
 The search is a memoised DFS over macro steps (a thread runs up to and including its next block and the releases
@@ -23,8 +27,13 @@ def parseOp (t : String) : Option Op :=
   | ["ego", v] => (nat? v).map Op.ego
   | ["cbfA", o, k] => do some (Op.cbfArrive (← nat? o) (← nat? k))
   | ["sn", o] => (nat? o).map Op.sn
-  | ["gbcRx", o, k] => do some (Op.gbcRx (← nat? o) (← nat? k) false)
-  | ["gbcRxD", o, k] => do some (Op.gbcRx (← nat? o) (← nat? k) true)
+  | ["gbcRx", o, a, k] => do some (Op.gbcRx (← nat? o) (← nat? a) (← nat? k) true false [])
+  | ["gbcRxD", o, a, k] => do some (Op.gbcRx (← nat? o) (← nat? a) (← nat? k) true true [])
+  | ["gbcRxU", o, a, k] => do some (Op.gbcRx (← nat? o) (← nat? a) (← nat? k) false false [])
+  | ["gbcRxUD", o, a, k] => do some (Op.gbcRx (← nat? o) (← nat? a) (← nat? k) false true [])
+  | ["shbRx", o, a] => do some (Op.shbRx (← nat? o) (← nat? a) true [])
+  | ["shbRxU", o, a] => do some (Op.shbRx (← nat? o) (← nat? a) false [])
+  | ["refresh"] => some (Op.refresh [])
   | ["cbfF", o, k, src] => do some (Op.cbfFire (← nat? o) (← nat? k) (← nat? src))
   | ["guc", o, r, d] => do some (Op.guc (← nat? o) (← nat? r) (← nat? d) true)
   | ["gucOld", o, r, d] => do some (Op.guc (← nat? o) (← nat? r) (← nat? d) false)
@@ -43,13 +52,19 @@ def parseThreads (ts : List String) : Option (List (List Op)) :=
   (splitThreads ts).mapM (fun th => th.mapM parseOp)
 
 def opKeys : Op → List Nat
-  | .cbfArrive _ k => [k] | .cbfFire _ k _ => [k] | .gbcRx _ k _ => [k] | _ => []
+  | .cbfArrive _ k => [k] | .cbfFire _ k _ => [k] | .gbcRx _ _ k _ _ _ => [k] | _ => []
 def opDests : Op → List Nat
   | .guc _ _ d _ => [d] | .lsReply _ d _ _ => [d] | .lsFire _ d _ _ => [d] | .purge d => [d] | _ => []
+/-- source addresses of received frames -/
+def opSrcs : Op → List Nat
+  | .gbcRx _ a _ _ _ _ => [a] | .shbRx _ a _ _ => [a] | _ => []
+/-- (source, SN) of received multi-hop packets -/
+def opRx : Op → List (Nat × Nat)
+  | .gbcRx _ a k _ _ _ => [(a, k)] | _ => []
 def opReqs : Op → List Nat
   | .guc _ r _ _ => [r] | _ => []
 def opIds : Op → List Nat
-  | .sn o => [o] | .shb o => [o] | .gbc o => [o] | .cbfArrive o _ => [o] | .gbcRx o _ _ => [o] | .cbfFire o _ _ => [o]
+  | .sn o => [o] | .shb o => [o] | .gbc o => [o] | .cbfArrive o _ => [o] | .gbcRx o _ _ _ _ _ => [o] | .shbRx o _ _ _ => [o] | .cbfFire o _ _ => [o]
   | .guc o _ _ _ => [o] | .lsReply o _ n _ => o :: (List.range n).map (fun k => 1000 * (k + 1) + o) | .lsFire o _ _ _ => [o] | _ => []
 
 def natsStr (xs : List Nat) : String := ",".intercalate (xs.map toString)
@@ -58,24 +73,39 @@ def pktStr (p : Pkt) : String := s!"{p.kind}:{p.ref}:{p.sn}:{p.pv}"
 
 def sortNat (xs : List Nat) : List Nat := (xs.toArray.qsort (· < ·)).toList
 
-/-- the observable outcome: packets in emission order, exceptions, final CBF / LS bookkeeping, and the requests that
-were neither sent nor are still buffered (`D`) -/
-def obs (keys dests reqs : List Nat) (s : St) : String :=
+/-- scenario-wide parameters of the observation: CBF keys, LS destinations, request ids, operation ids, source addresses
+of received frames, (source, SN) of received multi-hop packets -/
+structure Par where
+  keys : List Nat
+  dests : List Nat
+  reqs : List Nat
+  ids : List Nat
+  srcs : List Nat
+  rx : List (Nat × Nat)
+
+/-- the observable outcome: packets in emission order, exceptions, final CBF / LS bookkeeping, the requests that
+were neither sent nor are still buffered (`D`), the sequence numbers handed out (`N`), how often each received
+(source, SN) passed duplicate detection (`P`) and the final LocTE of each frame source (`T`: 0 none, 1 with PV, 2 without) -/
+def obs (q : Par) (s : St) : String :=
   let pk := ",".intercalate (s.sent.reverse.map pktStr)
-  let cb := natsStr (keys.filter s.cbf)
-  let ls := ";".intercalate (dests.map (fun d =>
+  let cb := natsStr (q.keys.filter s.cbf)
+  let ls := ";".intercalate (q.dests.map (fun d =>
     s!"{d}:{if s.loct d && s.pending d then 1 else 0}:{if (s.lsTimer d).isSome then 1 else 0}:{match s.lsCnt d with | some c => toString c | none => "-"}:{natsStr (s.lsBuf d)}"))
   let sentReqs := (s.sent.filter (fun p => p.kind == 2)).map (·.ref)
-  let gone := reqs.filter (fun r => !sentReqs.contains r && !(dests.any (fun d => (s.lsBuf d).contains r)))
-  s!"S={pk}_E={s.err}_C={cb}_L={ls}_D={natsStr (sortNat gone)}_N={natsStr s.snLog.reverse}"
+  let gone := q.reqs.filter (fun r => !sentReqs.contains r && !(q.dests.any (fun d => (s.lsBuf d).contains r)))
+  let ps := ",".intercalate (q.rx.map (fun ak => s!"{ak.1}:{ak.2}:{((s.srcPass ak.1 :: s.srcLives ak.1).flatten).count ak.2}"))
+  let tb := ",".intercalate (q.srcs.map (fun a => s!"{a}:{if s.loct a then (if s.ePV (s.eid a) then 1 else 2) else 0}"))
+  s!"S={pk}_E={s.err}_C={cb}_L={ls}_D={natsStr (sortNat gone)}_N={natsStr (sortNat s.snLog)}_P={ps}_T={tb}"
 
 /-- everything the future can depend on (memo key together with the program counters) -/
-def fullKey (keys dests reqs ids : List Nat) (s : St) : String :=
-  let regs := ";".intercalate (ids.map (fun o => natsStr ((List.range 12).map (s.reg o)) ++ "/" ++ natsStr (s.regL o) ++ "/" ++
+def fullKey (q : Par) (s : St) : String :=
+  let regs := ";".intercalate (q.ids.map (fun o => natsStr ((List.range 14).map (s.reg o)) ++ "/" ++ natsStr (s.regL o) ++ "/" ++
     (if s.tStarted o then "s" else "") ++ (if s.tCancelled o then "c" else "")))
-  let perD := ";".intercalate (dests.map (fun d => s!"{if s.loct d then 1 else 0}/{natsStr (s.lsFlight d)}/{match s.lsTimer d with | some t => toString t | none => "-"}"))
-  let perK := ";".intercalate (keys.map (fun k => s!"{s.cbfTok k}/{s.cbfPend k}/{if s.dpl k then 1 else 0}"))
-  s!"{obs keys dests reqs s}#{s.sn}#{s.ego}#{regs}#{perD}#{perK}"
+  let perD := ";".intercalate (q.dests.map (fun d => s!"{if s.loct d then 1 else 0}/{natsStr (s.lsFlight d)}/{match s.lsTimer d with | some t => toString t | none => "-"}"))
+  let perK := ";".intercalate (q.keys.map (fun k => s!"{s.cbfTok k}/{s.cbfPend k}"))
+  let perA := ";".intercalate ((q.srcs ++ q.dests).map (fun a => s!"{if s.loct a then 1 else 0}/{s.eid a}/{if s.pending a then 1 else 0}"))
+  let perE := ";".intercalate ((List.range s.eNext).map (fun i => s!"{if s.ePV (i + 1) then 1 else 0}/{natsStr (s.eDpl (i + 1))}"))
+  s!"{obs q s}#{s.sn}#{s.ego}#{regs}#{perD}#{perK}#{perA}#{perE}"
 
 /-- search state: the `Conc/Sched` system plus the tagged remainder of every thread's program -/
 structure XS where
@@ -130,36 +160,73 @@ partial def macroStep (x : XS) (t : ThreadId) : Option XS :=
         | none => none
   go x false false
 
-def sysKey (keys dests reqs ids : List Nat) (s : Sys St) : String :=
-  fullKey keys dests reqs ids s.sh ++ "@" ++ natsStr (s.thr.map (·.prog.length)) ++ "@" ++
+def sysKey (q : Par) (s : Sys St) : String :=
+  fullKey q s.sh ++ "@" ++ natsStr (s.thr.map (·.prog.length)) ++ "@" ++
     ";".intercalate (s.thr.map (fun th => natsStr th.held))
 
-partial def explore (keys dests reqs ids : List Nat) (x : XS)
+partial def explore (q : Par) (x : XS)
     (seen : Std.HashSet String) (outs : Std.HashSet String) : Std.HashSet String × Std.HashSet String :=
-  let k := sysKey keys dests reqs ids x.sys
+  let k := sysKey q x.sys
   if seen.contains k then (seen, outs) else
   let seen := seen.insert k
-  if finished x.sys then (seen, outs.insert (obs keys dests reqs x.sys.sh)) else
+  if finished x.sys then (seen, outs.insert (obs q x.sys.sh)) else
   let n := x.sys.thr.length
   let succs := (List.range n).filterMap (macroStep x)
   if succs.isEmpty then (seen, outs.insert "DEADLOCK") else
-  succs.foldl (fun (acc : Std.HashSet String × Std.HashSet String) x' => explore keys dests reqs ids x' acc.1 acc.2) (seen, outs)
+  succs.foldl (fun (acc : Std.HashSet String × Std.HashSet String) x' => explore q x' acc.1 acc.2) (seen, outs)
 
 def dedup (xs : List Nat) : List Nat := xs.foldl (fun acc x => if acc.contains x then acc else acc ++ [x]) []
 
+def dedupP (xs : List (Nat × Nat)) : List (Nat × Nat) := xs.foldl (fun acc x => if acc.contains x then acc else acc ++ [x]) []
+
+/-- tokens of the `init` segment -/
+inductive InitTok where
+  | warm (a k : Nat)      -- the source `a` is known before the run (a GBC with SN `k` was received: entry with PV and DPL [k])
+  | sn0 (v : Nat)         -- `router.sequence_number = v`
+  | op (op : Op)          -- an operation executed sequentially before the threads start
+
+def parseInit (t : String) : Option InitTok :=
+  match t.splitOn ":" with
+  | ["warm", a, k] => do some (.warm (← nat? a) (← nat? k))
+  | ["sn0", v] => (nat? v).map .sn0
+  | _ => (parseOp t).map .op
+
+def applyInit (s : St) : InitTok → St
+  | .warm a k =>
+    let t := locTRefresh [] (rxRecv true 0 a k (locTRefresh [] s))
+    -- the ghost acceptance lists only count receptions of the run itself
+    { t with srcPass := fun _ => [], srcLives := fun _ => [] }
+  | .sn0 v => { s with sn := v }
+  | .op op =>
+    let prog := threadProg [op]
+    (run { sh := s, thr := [{ prog := prog, held := [] }] } (List.replicate prog.length 0)).sh
+
+def initOps : InitTok → List Op
+  | .op op => [op]
+  | _ => []
+def initSrcs : InitTok → List Nat
+  | .warm a _ => [a]
+  | _ => []
+
 def exploreLine (ts : List String) : String :=
-  match parseThreads ts with
-  | none => "bad-op"
-  | some threads =>
-    let ops := threads.flatten
-    let keys := sortNat (dedup (ops.flatMap opKeys))
-    let dests := sortNat (dedup (ops.flatMap opDests))
-    let ids := sortNat (dedup (ops.flatMap opIds))
-    let reqs := sortNat (dedup (ops.flatMap opReqs))
-    let x0 : XS := { sys := sys threads, tp := threads.map (fun ops => (ops.map compileT).flatten) }
-    let (_, outs) := explore keys dests reqs ids x0 {} {}
+  let segs := splitThreads ts
+  let (initToks, segs) : Option (List InitTok) × List (List String) := match segs with
+    | ("init" :: rest) :: more => (rest.mapM parseInit, more)
+    | _ => (some [], segs)
+  match initToks, segs.mapM (fun th => th.mapM parseOp) with
+  | some inits, some threads =>
+    let ops := threads.flatten ++ inits.flatMap initOps
+    let q : Par := {
+      keys := sortNat (dedup (ops.flatMap opKeys)), dests := sortNat (dedup (ops.flatMap opDests)),
+      ids := sortNat (dedup (ops.flatMap opIds)), reqs := sortNat (dedup (ops.flatMap opReqs)),
+      srcs := sortNat (dedup (ops.flatMap opSrcs ++ inits.flatMap initSrcs)),
+      rx := (dedupP (ops.flatMap opRx)).toArray.qsort (fun x y => x.1 < y.1 || (x.1 == y.1 && x.2 < y.2)) |>.toList }
+    let s0 : St := inits.foldl applyInit {}
+    let x0 : XS := { sys := { sys threads with sh := s0 }, tp := threads.map (fun ops => (ops.map compileT).flatten) }
+    let (_, outs) := explore q x0 {} {}
     let l := (outs.toList.toArray.qsort (· < ·)).toList
     "|".intercalate l
+  | _, _ => "bad-op"
 
 def routerStep (_ : Unit) (t : List String) : Unit × String :=
   match t with
